@@ -42,7 +42,7 @@ LandsOK(e) ==
           /\ \A c \in {<<nb[1], nb[2]>>, <<nb[3], nb[2]>>, <<nb[3], nb[4]>>, <<nb[1], nb[4]>>} :
                ApplyPt(e.ctm, c) = Turn(q, <<c[1] - nb[1], c[2] - nb[2]>>, w, h)
 
-Accept == i <= NE /\ StepsOK(Events[i]) /\ LandsOK(Events[i]) /\ i' = i + 1
+Accept == i <= NE /\ (StepsOK(Events[i]) /\ LandsOK(Events[i])) = TRUE /\ i' = i + 1
 Finished == i > NE /\ UNCHANGED i
 Next == Accept \/ Finished
 Spec == Init /\ [][Next]_vars
